@@ -252,6 +252,31 @@ def run_unit(name, canary=True, rlimit=None):
     failures, hard = classify(out["diags"], lmap)
     res["failures"] = failures
     res["hard"] = hard
+    # guard against std functions that Verus ACCEPTS WITHOUT A FUNCTIONAL SPECIFICATION (their results are arbitrary, so a harmless edit
+    # that starts using one makes proofs fail): a function that newly calls one of them gets its failures reported as UNDECIDED
+    UNSPECIFIED = {"len", "eq", "ne", "clone", "load", "store", "swap", "fetch_add", "fetch_sub", "compare_exchange", "cmp", "partial_cmp", "to_owned"}
+    try:
+        with open(os.path.join(ROOT, "baseline", "callees.json")) as bf:
+            base_callees = json.load(bf)
+    except Exception:
+        base_callees = {}
+    suspects = {}
+    for f in unit.fns:
+        cur = set(re.findall(r"\.\s*(\w+)\s*\(", f.mbody)) | set(re.findall(r"(?<![\.\w])(\w+)\s*\(", f.mbody))
+        new = (cur - set(base_callees.get(f.qual(), cur))) & UNSPECIFIED
+        # calls rewritten by a rule (given a meaning by a shim) do not count
+        rewritten = " ".join(ed.new for ed in f.edits)
+        given = set()
+        if "str_len(" in rewritten or "str_char_count(" in rewritten:
+            given.add("len")
+        if "counter_load(" in rewritten or "stop_poll(" in rewritten:
+            given.add("load")
+        if "axiom_fetch_add(" in rewritten:
+            given.add("fetch_add")
+        new = new - given
+        if new:
+            suspects[f.qual()] = sorted(new)
+    res["suspect_unspecified_calls"] = suspects
     res["functions"] = [{"fn": f.qual(), "src": f.ex.rel, "line": f.ex.line, "props": sorted(f.props),
                          "labels": [l for l, _ in f.ensures], "rules": f.applied} for f in unit.fns]
     res["labels"] = sorted({lab for f in unit.fns for l, _ in f.ensures for lab in l.split(",")} |
@@ -287,6 +312,12 @@ def run_unit(name, canary=True, rlimit=None):
         res["undecided_reason"] = "verus rejected the woven text: " + "; ".join("%s (line %s)" % (h["msg"], h["line"]) for h in hard[:5])
     elif failures:
         res["status"] = "failed"
+        sus_fail = [f for f in failures if (f.get("fn") or "").replace("#canary", "") in suspects]
+        if sus_fail:
+            res["failures"] = [f for f in failures if f not in sus_fail]
+            res["status"] = "undecided"
+            res["undecided_reason"] = "obligations failed in %s, which newly calls %s: accepted by Verus without a functional specification, so the failure may be an artefact" % (
+                ", ".join(sorted({f["fn"] for f in sus_fail})), ", ".join(sorted({n for f in sus_fail for n in suspects[f["fn"].replace("#canary", "")]})))
     elif res["summary"].get("errors", 0) != 0 or not res["summary"].get("success", False):
         res["status"] = "undecided"
         res["undecided_reason"] = "verus reported errors that could not be classified"
